@@ -78,6 +78,30 @@ fn check_state<const M: usize>(cx: &mut Cx, g: &GlobalDescriptorTable<M>, refere
     }
 }
 
+/// a table filled to capacity with non-zero descriptors
+fn full_table<const M: usize>() -> GlobalDescriptorTable<M> {
+    let mut g = GlobalDescriptorTable::<M>::empty();
+    for _ in 1..M {
+        g.append(Descriptor::UserSegment(u64::MAX));
+    }
+    g
+}
+
+/// object reuse: the same table state held by an object that was a full table before (clone_from over a longer table) and by
+/// one that was an empty table before continues exactly like a fresh clone
+fn reuse_check<const M: usize>(cx: &mut Cx, g: &GlobalDescriptorTable<M>, d: Descriptor, reference: &[u64], hs: &str) {
+    let mut g2 = g.clone();
+    let res = catch(|| g2.append(d));
+    for (what, mut g3) in [("full", full_table::<M>()), ("empty", GlobalDescriptorTable::<M>::empty())] {
+        g3.clone_from(g);
+        let before = (raw(&g3), g3.limit());
+        let res3 = catch(|| g3.append(d));
+        if before != (reference.to_vec(), (8 * reference.len() - 1) as u16) || res3.map(|x| x.0) != res.map(|x| x.0) || raw(&g3) != raw(&g2) || g3.limit() != g2.limit() {
+            cx.r.viol(&format!("C14|MAX={}|table-assigned-with-clone_from-over-a-{}-table-differs-or-continues-differently", M, what), hs, &format!("{:x?} vs {:x?}", raw(&g3), raw(&g2)));
+        }
+    }
+}
+
 fn dfs<const M: usize>(cx: &mut Cx, g: &GlobalDescriptorTable<M>, reference: &Vec<u64>, depth: usize, dev: u32, hist: &mut Vec<String>) {
     if depth > M {
         return;
@@ -115,6 +139,7 @@ fn dfs<const M: usize>(cx: &mut Cx, g: &GlobalDescriptorTable<M>, reference: &Ve
         let mut g2 = g.clone();
         let res = catch(|| g2.append(d));
         let fits = reference.len() + need <= M;
+        reuse_check(cx, g, d, reference, &hs);
         match res {
             Ok(sel) => {
                 if !fits {
@@ -359,6 +384,7 @@ fn replay_hist(r: &mut Rep, m: usize, descs: &[Descriptor], case: &str) {
                     Descriptor::SystemSegment(a, b) => (2, vec![a, b]),
                 };
                 let fits = reference.len() + need <= $M;
+                reuse_check(&mut cx, &g, *d, &reference, case);
                 let gr = &mut g;
                 let dd = *d;
                 match catch(|| gr.append(dd)) {
